@@ -100,6 +100,7 @@ def gen_member(rng, i):
         if not p["edns0"] and rng.random() < 0.4:
             p["edns0"] = "formerr"        # does not honour EDNS0 the loud way: FORMERR to every query with an OPT record
         p["refuse"] = rng.choice(["servfail", "silence"])
+        p["rr_order"] = rng.choice(["keep", "keep", "rotate", "reverse"])      # (resolvers rotate RRsets; the protocol numbers its records)
         if not member_valid(p):
             p["allowed"] = sorted(set(p["allowed"]) | {rng.choice(["TXT", "SRV", "MX", "CNAME", "A"])}, key=ORDER.index)
     return p
@@ -120,6 +121,7 @@ def scn(params):
         m = params["member"]
         rl = relay.XformRelay(scen.RELAY_IP, (scen.SERVER_IP, 53), random.Random(rng.getrandbits(32)), tuple(m["qcfg"]), tuple(m["acfg"]),
                               [TNUM[t] for t in m["allowed"]], m["limit"], m["edns0"], refuse_mode=m["refuse"])
+        rl.rr_order = m.get("rr_order", "keep")
         k.add_actor(scen.RELAY_IP, rl)
         if params.get("pred"):
             # somebody else used the server (directly, with non-default codecs) and vanished more than a minute ago
